@@ -77,11 +77,28 @@ class TaintInterp(Interp):
         self.appends = []            # (tick, list object, value)
         self.tick = 0
         self.n_match = 0
+        self.recursive = set()       # qualnames of renderer functions that can reach themselves (set by interpret)
+        self.active = {}
+        self.renderer = None         # name of the renderer class: any of its methods entered again while running is an include recursion
         self.level = 0               # include nesting of the translate() activation that is running
 
     # -- locations
     def here(self):
         return self.call_stack[-1] if self.call_stack else ("?", 0)
+
+    # -- recursion through includes: a renderer function that is entered again while one of its activations is still
+    # running renders an included template with the same code — for the including activation the result is simply data
+    def _call_func(self, f, args, kwargs):
+        q = f.fi.qual if f.fi is not None else None
+        if q is not None and (q in self.recursive or (f.fi.cls is not None and f.fi.cls.name == self.renderer)):
+            if self.active.get(q, 0) >= 1:
+                return Unknown(T + "included rendering⟧" + q)
+            self.active[q] = self.active.get(q, 0) + 1
+            try:
+                return super()._call_func(f, args, kwargs)
+            finally:
+                self.active[q] -= 1
+        return super()._call_func(f, args, kwargs)
 
     # -- the escape / un-escape rewrites and replace-scans on unknown texts
     def call(self, f, args, kwargs):
@@ -224,7 +241,7 @@ class TaintInterp(Interp):
         self.ext_stubs["re.escape"] = lambda interp, args, kwargs: args[0] if isinstance(args[0], Unknown) else _re.escape(args[0])
 
 
-def interpret(p, rib, tr, mrna_cls, strict: bool, max_paths=3000):
+def interpret(p, rib, tr, mrna_cls, strict: bool, max_paths=3000, recursive=()):
     """every path of translate() on an unknown template with unknown bindings.  Returns a list of run records"""
     qual = tr.qual
 
@@ -232,22 +249,8 @@ def interpret(p, rib, tr, mrna_cls, strict: bool, max_paths=3000):
         it = TaintInterp(p, o)
         it.max_unknown_len = 1
         it.install_regex()
-        depth = [0]
-
-        def tr_stub(interp, args, kwargs):
-            # recursion through includes: the rendering of an included template is the same code run again, so for the
-            # including activation it is simply data (whatever it contains)
-            if depth[0] >= 1:
-                return Obj(None, {"sequence": Unknown(T + "included rendering⟧deep"), "warnings": [], "source_mrna": "included", "variables_bound": {}}, tag="protein")
-            depth[0] += 1
-            interp.level = depth[0] - 1
-            interp.bypass_stub_once = qual
-            try:
-                return interp.call_fi(tr, args, kwargs)
-            finally:
-                depth[0] -= 1
-                interp.level = depth[0] - 1
-        it.stubs[qual] = tr_stub
+        it.recursive = set(recursive)
+        it.renderer = rib.name
         r = it.instantiate(rib, [], dict(silent=True, strict=strict))
         r.fields["templates"] = Unknown("templates")
         r.fields["filters"] = Unknown(T + "filter output⟧filters")
